@@ -324,9 +324,16 @@ static long eval_const_expr(Token **rest, Token *tok) {
 
   // [https://www.sigbus.info/n1570#6.10.1p4] In #if, all signed and
   // unsigned integer types act as if they were intmax_t and uintmax_t.
-  for (Token *t = expr; t->kind != TK_EOF; t = t->next)
-    if (t->kind == TK_NUM && is_integer(t->ty))
-      t->ty = t->ty->is_unsigned ? ty_ulong : ty_long;
+  // A constant is unsigned only if it has a u suffix or does not fit
+  // in intmax_t; e.g. 0xffffffff is unsigned int in phase 7 but signed
+  // here.
+  for (Token *t = expr; t->kind != TK_EOF; t = t->next) {
+    if (t->kind == TK_NUM && is_integer(t->ty)) {
+      bool is_unsigned = t->ty->is_unsigned &&
+        (t->ty->size == 8 || memchr(t->loc, 'u', t->len) || memchr(t->loc, 'U', t->len));
+      t->ty = is_unsigned ? ty_ulong : ty_long;
+    }
+  }
 
   Token *rest2;
   long val = const_expr(&rest2, expr);
